@@ -69,6 +69,11 @@ def run(chk):
     mixed = abs_lib(4, layers=[2, 103, 101, 1]); mixed["name"] = "mixednum"
     for nm, lib in (("samenum", same), ("mixednum", mixed)):
         inputs += [("raw2gds", nm, lib), ("raw2proto", nm, lib), ("raw2lef", nm, lib)]
+    # a layer on which one purpose is registered under two datatype numbers (abstract layer id 104)
+    dup = {"name": "duppurpose", "units": "Nano", "cells": [{"name": "c", "has_layout": True, "insts": [], "annots": [], "abs": [],
+           "elems": [{"layer": 104, "purpose": "Drawing", "k": "rect", "pts": [[0, 0], [4, 2]], "width": 0, "net": "n"},
+                     {"layer": 104, "purpose": "Pin", "k": "rect", "pts": [[10, 0], [14, 2]], "width": 0, "net": ""}]}]}
+    inputs += [("raw2gds", "duppurpose", dup), ("raw2proto", "duppurpose", dup)]
     gs = [c for c in gen("raw", "MC_GdsSemantics", "Emit", consts="CONSTANT NDeep = 10\n") if not c["must_err"]]
     fan = [c for c in gs if any(st["name"] == "fan_top" for st in c["lib"])]
     chk.require(len(fan) >= 3, "fan-out GDS inputs missing")
